@@ -21,6 +21,24 @@
 #include <sys/types.h>
 #include <sys/socket.h>
 
+/* When the shim is linked into a static harness together with -Wl,--wrap=..., its own references to the
+ * wrapped symbols would be redirected to the wrappers too: use the __real_ names there. */
+#ifdef VF_STATIC_WRAP
+int __real_getentropy(void *buf, size_t n);
+time_t __real_time(time_t *t);
+ssize_t __real_recv(int fd, void *buf, size_t len, int flags);
+ssize_t __real_send(int fd, const void *buf, size_t len, int flags);
+#define REAL_getentropy __real_getentropy
+#define REAL_time __real_time
+#define REAL_recv __real_recv
+#define REAL_send __real_send
+#else
+#define REAL_getentropy getentropy
+#define REAL_time time
+#define REAL_recv recv
+#define REAL_send send
+#endif
+
 #define VF_LOG_MAX   (1 << 16)   /* bytes of entropy remembered per thread   */
 #define VF_DRAW_MAX  4096        /* draw sizes remembered per thread         */
 #define VF_QUEUE_MAX (1 << 16)
@@ -160,7 +178,7 @@ int __wrap_getentropy(void *buf, size_t n)
 		return -1;
 	}
 	if (t->mode_real) {
-		if (getentropy(buf, n) != 0) return -1;
+		if (REAL_getentropy(buf, n) != 0) return -1;
 	} else {
 		uint8_t *p = buf;
 		size_t i = 0;
@@ -186,7 +204,7 @@ long vf_time_calls(void) { return __atomic_load_n(&time_calls, __ATOMIC_SEQ_CST)
 time_t __wrap_time(time_t *out)
 {
 	long v = __atomic_load_n(&vtime_value, __ATOMIC_SEQ_CST);
-	time_t r = v ? (time_t)v : time(NULL);
+	time_t r = v ? (time_t)v : REAL_time(NULL);
 	__atomic_add_fetch(&time_calls, 1, __ATOMIC_SEQ_CST);
 	if (out) *out = r;
 	return r;
@@ -240,7 +258,7 @@ ssize_t __wrap_recv(int fd, void *buf, size_t len, int flags)
 		if (k < len) { len = k; t->n_recv_short++; }
 		maybe_yield(t);
 	}
-	ssize_t r = recv(fd, buf, len, flags);
+	ssize_t r = REAL_recv(fd, buf, len, flags);
 	frag_note(t, req, r);
 	return r;
 }
@@ -264,7 +282,7 @@ ssize_t __wrap_send(int fd, const void *buf, size_t len, int flags)
 		if (k < len) { len = k; t->n_send_short++; }
 		maybe_yield(t);
 	}
-	ssize_t r = send(fd, buf, len, flags | MSG_NOSIGNAL);
+	ssize_t r = REAL_send(fd, buf, len, flags | MSG_NOSIGNAL);
 	frag_note(t, req, r);
 	return r;
 }
